@@ -22,18 +22,31 @@ TITLE = "IDC estimands equal the true conditional interventional distribution"
 
 
 @lru_cache(maxsize=None)
+def _colliders5(tier):
+    """Five-node name-ordered ADMGs that contain a collider with at least three parents (the smallest shape on which
+    'marry the parents' differs between a clique and a chain; rule 2 of IDC asks d-separation questions on it), with at most
+    one (thorough: two) further edges."""
+    out = []
+    for g in enum_O(5, max_edges=4 if tier == "quick" else 5):
+        if any(sum(1 for _, b in g.di if b == v) >= 3 for v in g.nodes):
+            out.append(g)
+    return out
+
+
+@lru_cache(maxsize=None)
 def _universe(tier):
     if tier == "quick":
-        return [g for n in (2, 3) for g in enum_L(n)] + list(enum_O(4, max_edges=4))
+        return [g for n in (2, 3) for g in enum_L(n)] + list(enum_O(4, max_edges=4)) + _colliders5(tier)
     o4 = list(enum_O(4))
     seen = set(o4)
-    return [g for n in (2, 3) for g in enum_L(n)] + o4 + [g for g in enum_L(4, max_edges=4) if g not in seen]
+    return [g for n in (2, 3) for g in enum_L(n)] + o4 + [g for g in enum_L(4, max_edges=4) if g not in seen] + _colliders5(tier)
 
 
 def shards(tier):
     n = len(_universe(tier))
     size = 16 if tier == "quick" else 32
-    out = [(i, min(i + size, n)) for i in range(0, n, size)]
+    n5 = len(_colliders5(tier))
+    out = [(i, i + 1) for i in range(n - n5, n)] + [(i, min(i + size, n - n5)) for i in range(0, n - n5, size)]
     # builder phase: one live graph object grown edge by edge, every (X, Y, Z) asked again after every insertion
     return out + [("build", i) for i in range(len(build_ops(NAMES3)))]
 
@@ -61,6 +74,7 @@ def describe(tier):
             if tier == "quick"
             else "graphs: L(2), L(3) + O(4) all 4096 name-ordered four-node ADMGs + L(4, <=4 edges)"
         )
+        + "; five-node name-ordered ADMGs with a collider of >=3 parents (all-binary witness) and <=" + ("4" if tier == "quick" else "5") + " edges"
         + "; every (X, Y, Z) pairwise disjoint with Y, Z non-empty and X possibly empty; witness profiles: all-binary + "
         + ("two ternary profiles" if tier == "thorough" else "one ternary node")
         + "; every value assignment; builder sequences: every sequence of 3 edge insertions over 3 names on one live graph "
@@ -134,6 +148,8 @@ def check_query(res: Res, g: G, yg, x, y, z, models, case):
 def explore_graph(res: Res, g: G, tier, seed, only=None):
     yg = to_y0(g)
     models = [(label, SCM(g, card=card, salt=salt)) for label, card, salt in profiles(g, tier, seed)]
+    if len(g.nodes) >= 5:
+        models = models[:1]  # five-node slice: the all-binary witness only
     for x, y, z in disjoint_triples(g.nodes):
         if only and [list(x), list(y), list(z)] != only:
             continue
